@@ -119,6 +119,7 @@ func newConsumer(client Client) (Consumer, error) {
 }
 
 func (c *consumer) Close() error {
+	verifEvtKV("lc.cons.close", "", verifID(c), 0)
 	return c.client.Close()
 }
 
@@ -158,10 +159,12 @@ func (c *consumer) ConsumePartition(topic string, partition int32, offset int64)
 		return nil, err
 	}
 
+	verifEvtKV("lc.pc.start", child.topic, verifID(child), int64(child.partition))
 	go withRecover(child.dispatcher)
 	go withRecover(child.responseFeeder)
 
 	child.broker = c.refBrokerConsumer(leader)
+	verifEvtKV("lc.pc.input.send", "new", verifID(child), verifID(child.broker))
 	child.broker.input <- child
 
 	return child, nil
@@ -197,6 +200,7 @@ func (c *consumer) addChild(child *partitionConsumer) error {
 		return ConfigurationError("That topic/partition is already being consumed")
 	}
 
+	verifEvtKV("lc.cons.child.add", "", verifID(c), verifID(child))
 	topicChildren[child.partition] = child
 	return nil
 }
@@ -205,6 +209,7 @@ func (c *consumer) removeChild(child *partitionConsumer) {
 	c.lock.Lock()
 	defer c.lock.Unlock()
 
+	verifEvtKV("lc.cons.child.remove", "", verifID(c), verifID(child))
 	delete(c.children[child.topic], child.partition)
 }
 
@@ -218,6 +223,7 @@ func (c *consumer) refBrokerConsumer(broker *Broker) *brokerConsumer {
 		c.brokerConsumers[broker] = bc
 	}
 
+	verifEvtKV("lc.bc.ref", "", verifID(bc), int64(bc.refs))
 	bc.refs++
 
 	return bc
@@ -227,9 +233,11 @@ func (c *consumer) unrefBrokerConsumer(brokerWorker *brokerConsumer) {
 	c.lock.Lock()
 	defer c.lock.Unlock()
 
+	verifEvtKV("lc.bc.unref", "", verifID(brokerWorker), int64(brokerWorker.refs))
 	brokerWorker.refs--
 
 	if brokerWorker.refs == 0 {
+		verifEvtKV("lc.bc.input.close", "", verifID(brokerWorker), 0)
 		close(brokerWorker.input)
 		if c.brokerConsumers[brokerWorker.broker] == brokerWorker {
 			delete(c.brokerConsumers, brokerWorker.broker)
@@ -325,6 +333,7 @@ func (child *partitionConsumer) sendError(err error) {
 	}
 
 	if child.conf.Consumer.Return.Errors {
+		verifEvtKV("lc.pc.errors.send", "", verifID(child), 0)
 		child.errors <- cErr
 	} else {
 		Logger.Println(cErr)
@@ -341,11 +350,14 @@ func (child *partitionConsumer) computeBackoff() time.Duration {
 
 func (child *partitionConsumer) dispatcher() {
 	for range child.trigger {
+		verifEvtKV("lc.pc.disp.token", "", verifID(child), 0)
 		select {
 		case <-child.dying:
+			verifEvtKV("lc.pc.trigger.close", "disp", verifID(child), 0)
 			close(child.trigger)
 		case <-time.After(child.computeBackoff()):
 			if child.broker != nil {
+				verifEvtKV("lc.pc.unref", "redispatch", verifID(child), verifID(child.broker))
 				child.consumer.unrefBrokerConsumer(child.broker)
 				child.broker = nil
 			}
@@ -353,15 +365,18 @@ func (child *partitionConsumer) dispatcher() {
 			Logger.Printf("consumer/%s/%d finding new broker\n", child.topic, child.partition)
 			if err := child.dispatch(); err != nil {
 				child.sendError(err)
+				verifEvtKV("lc.pc.trigger.send", "disp", verifID(child), 0)
 				child.trigger <- none{}
 			}
 		}
 	}
 
 	if child.broker != nil {
+		verifEvtKV("lc.pc.unref", "exit", verifID(child), verifID(child.broker))
 		child.consumer.unrefBrokerConsumer(child.broker)
 	}
 	child.consumer.removeChild(child)
+	verifEvtKV("lc.pc.feeder.close", "", verifID(child), 0)
 	close(child.feeder)
 }
 
@@ -389,6 +404,7 @@ func (child *partitionConsumer) dispatch() error {
 
 	child.broker = child.consumer.refBrokerConsumer(broker)
 
+	verifEvtKV("lc.pc.input.send", "disp", verifID(child), verifID(child.broker))
 	child.broker.input <- child
 
 	return nil
@@ -432,6 +448,7 @@ func (child *partitionConsumer) AsyncClose() {
 	// 'errors' channel (alternatively, if the child is already at the dispatcher for some reason, that will
 	// also just close itself)
 	child.closeOnce.Do(func() {
+		verifEvtKV("lc.pc.dying.close", "", verifID(child), 0)
 		close(child.dying)
 	})
 }
@@ -501,6 +518,7 @@ feederLoop:
 						}
 					}
 					verifEvtKV("cf.resubscribe", child.topic, int64(child.partition), 0)
+					verifEvtKV("lc.pc.input.send", "feeder", verifID(child), verifID(child.broker))
 					child.broker.input <- child
 					continue feederLoop
 				} else {
@@ -518,7 +536,9 @@ feederLoop:
 	verifEvtKV("cf.closed", child.topic, int64(child.partition), 0)
 
 	expiryTicker.Stop()
+	verifEvtKV("lc.pc.messages.close", "", verifID(child), 0)
 	close(child.messages)
+	verifEvtKV("lc.pc.errors.close", "", verifID(child), 0)
 	close(child.errors)
 }
 
@@ -756,6 +776,7 @@ func (c *consumer) newBrokerConsumer(broker *Broker) *brokerConsumer {
 		refs:             0,
 	}
 
+	verifEvtKV("lc.bc.new", "", verifID(bc), int64(broker.ID()))
 	go withRecover(bc.subscriptionManager)
 	go withRecover(bc.subscriptionConsumer)
 
@@ -795,10 +816,13 @@ func (bc *brokerConsumer) subscriptionManager() {
 	}
 
 done:
+	verifEvtKV("lc.bc.wait.close", "", verifID(bc), 0)
 	close(bc.wait)
 	if len(buffer) > 0 {
+		verifEvtKV("lc.bc.newsubs.flush", "", verifID(bc), int64(len(buffer)))
 		bc.newSubscriptions <- buffer
 	}
+	verifEvtKV("lc.bc.newsubs.close", "", verifID(bc), 0)
 	close(bc.newSubscriptions)
 }
 
@@ -825,15 +849,18 @@ func (bc *brokerConsumer) subscriptionConsumer() {
 
 		bc.acks.Add(len(bc.subscriptions))
 		for child := range bc.subscriptions {
+			verifEvtKV("lc.pc.feeder.send", "", verifID(child), verifID(bc))
 			child.feeder <- response
 		}
 		bc.acks.Wait()
 		bc.handleResponses()
 	}
+	verifEvtKV("lc.bc.exit", "drained", verifID(bc), 0)
 }
 
 func (bc *brokerConsumer) updateSubscriptions(newSubscriptions []*partitionConsumer) {
 	for _, child := range newSubscriptions {
+		verifEvtKV("lc.bc.sub.add", "", verifID(bc), verifID(child))
 		bc.subscriptions[child] = none{}
 		Logger.Printf("consumer/broker/%d added subscription to %s/%d\n", bc.broker.ID(), child.topic, child.partition)
 	}
@@ -842,6 +869,7 @@ func (bc *brokerConsumer) updateSubscriptions(newSubscriptions []*partitionConsu
 		select {
 		case <-child.dying:
 			Logger.Printf("consumer/broker/%d closed dead subscription to %s/%d\n", bc.broker.ID(), child.topic, child.partition)
+			verifEvtKV("lc.pc.trigger.close", "bc.dying", verifID(child), verifID(bc))
 			close(child.trigger)
 			delete(bc.subscriptions, child)
 		default:
@@ -860,6 +888,7 @@ func (bc *brokerConsumer) handleResponses() {
 			if preferredBroker, err := child.preferredBroker(); err == nil {
 				if bc.broker.ID() != preferredBroker.ID() {
 					// not an error but needs redispatching to consume from prefered replica
+					verifEvtKV("lc.pc.trigger.send", "bc", verifID(child), verifID(bc))
 					child.trigger <- none{}
 					delete(bc.subscriptions, child)
 				}
@@ -880,12 +909,14 @@ func (bc *brokerConsumer) handleResponses() {
 			// shut it down and force the user to choose what to do
 			child.sendError(result)
 			Logger.Printf("consumer/%s/%d shutting down because %s\n", child.topic, child.partition, result)
+			verifEvtKV("lc.pc.trigger.close", "bc.oor", verifID(child), verifID(bc))
 			close(child.trigger)
 			delete(bc.subscriptions, child)
 		case ErrUnknownTopicOrPartition, ErrNotLeaderForPartition, ErrLeaderNotAvailable, ErrReplicaNotAvailable:
 			// not an error, but does need redispatching
 			Logger.Printf("consumer/broker/%d abandoned subscription to %s/%d because %s\n",
 				bc.broker.ID(), child.topic, child.partition, result)
+			verifEvtKV("lc.pc.trigger.send", "bc", verifID(child), verifID(bc))
 			child.trigger <- none{}
 			delete(bc.subscriptions, child)
 		default:
@@ -893,6 +924,7 @@ func (bc *brokerConsumer) handleResponses() {
 			child.sendError(result)
 			Logger.Printf("consumer/broker/%d abandoned subscription to %s/%d because %s\n",
 				bc.broker.ID(), child.topic, child.partition, result)
+			verifEvtKV("lc.pc.trigger.send", "bc", verifID(child), verifID(bc))
 			child.trigger <- none{}
 			delete(bc.subscriptions, child)
 		}
@@ -900,11 +932,13 @@ func (bc *brokerConsumer) handleResponses() {
 }
 
 func (bc *brokerConsumer) abort(err error) {
+	verifEvtKV("lc.bc.abort", "", verifID(bc), 0)
 	bc.consumer.abandonBrokerConsumer(bc)
 	_ = bc.broker.Close() // we don't care about the error this might return, we already have one
 
 	for child := range bc.subscriptions {
 		child.sendError(err)
+		verifEvtKV("lc.pc.trigger.send", "bc.abort", verifID(child), verifID(bc))
 		child.trigger <- none{}
 	}
 
@@ -915,9 +949,11 @@ func (bc *brokerConsumer) abort(err error) {
 		}
 		for _, child := range newSubscriptions {
 			child.sendError(err)
+			verifEvtKV("lc.pc.trigger.send", "bc.abort", verifID(child), verifID(bc))
 			child.trigger <- none{}
 		}
 	}
+	verifEvtKV("lc.bc.exit", "aborted", verifID(bc), 0)
 }
 
 func (bc *brokerConsumer) fetchNewMessages() (*FetchResponse, error) {
